@@ -25,16 +25,11 @@ use crate::types::{
     TypeDefinition, TypeName,
 };
 
-enum CachedLogSafety {
-    Uncomputed,
-    Computed(Option<LogSafety>),
-}
-
 struct TypeContext {
     def: TypeDefinition,
     has_double: Cell<Option<bool>>,
     is_copy: Cell<Option<bool>>,
-    log_safety: RefCell<CachedLogSafety>,
+    log_safety: RefCell<Option<LogSafety>>,
 }
 
 pub struct Context {
@@ -43,6 +38,19 @@ pub struct Context {
     serialize_empty_collections: bool,
     strip_prefix: Vec<String>,
     version: Option<String>,
+}
+
+fn context_type_names(defs: &ConjureDefinition) -> Vec<TypeName> {
+    defs.types()
+        .iter()
+        .map(|def| match def {
+            TypeDefinition::Alias(def) => def.type_name().clone(),
+            TypeDefinition::Enum(def) => def.type_name().clone(),
+            TypeDefinition::Object(def) => def.type_name().clone(),
+            TypeDefinition::Union(def) => def.type_name().clone(),
+        })
+        .chain(defs.errors().iter().map(|def| def.error_name().clone()))
+        .collect()
 }
 
 impl Context {
@@ -79,7 +87,7 @@ impl Context {
                     def: def.clone(),
                     has_double: Cell::new(None),
                     is_copy: Cell::new(None),
-                    log_safety: RefCell::new(CachedLogSafety::Uncomputed),
+                    log_safety: RefCell::new(Some(LogSafety::Safe)),
                 },
             );
         }
@@ -91,9 +99,28 @@ impl Context {
                     def: TypeDefinition::Object(error_object_definition(def)),
                     has_double: Cell::new(None),
                     is_copy: Cell::new(None),
-                    log_safety: RefCell::new(CachedLogSafety::Uncomputed),
+                    log_safety: RefCell::new(Some(LogSafety::Safe)),
                 },
             );
+        }
+
+        // The log safety of named types is the greatest fixpoint of the per-type rules: every type starts out safe and
+        // is lowered until nothing changes. A recursive type is then safe only if everything reachable from it is,
+        // independently of the order in which types are evaluated.
+        let names = context_type_names(defs);
+        loop {
+            let mut changed = false;
+            for name in &names {
+                let safety = context.compute_type_log_safety(name);
+                let ctx = &context.types[name];
+                if *ctx.log_safety.borrow() != safety {
+                    *ctx.log_safety.borrow_mut() = safety;
+                    changed = true;
+                }
+            }
+            if !changed {
+                break;
+            }
         }
 
         context
@@ -1030,16 +1057,13 @@ impl Context {
     }
 
     fn type_log_safety_ref(&self, name: &TypeName) -> Option<LogSafety> {
+        self.types[name].log_safety.borrow().clone()
+    }
+
+    fn compute_type_log_safety(&self, name: &TypeName) -> Option<LogSafety> {
         let ctx = &self.types[name];
 
-        if let CachedLogSafety::Computed(safety) = &*ctx.log_safety.borrow() {
-            return safety.clone();
-        }
-
-        // temporarily treat it as safe in case of recursive type definitions.
-        *ctx.log_safety.borrow_mut() = CachedLogSafety::Computed(Some(LogSafety::Safe));
-
-        let safety = match &ctx.def {
+        match &ctx.def {
             TypeDefinition::Alias(alias) => alias
                 .safety()
                 .cloned()
@@ -1068,10 +1092,7 @@ impl Context {
                 // on the type generation configuration. However, like conjure-java we're going to
                 // treat the unknown variant as unannotated for now to ease the rollout.
                 .fold(None, |a, b| self.combine_safety(a, b)),
-        };
-
-        *ctx.log_safety.borrow_mut() = CachedLogSafety::Computed(safety.clone());
-        safety
+        }
     }
 
     fn combine_safety(&self, a: Option<LogSafety>, b: Option<LogSafety>) -> Option<LogSafety> {
